@@ -661,6 +661,31 @@ func c06ring(c *core.Ctx) {
 				dg = append(dg, v)
 			})
 			h.s.Do(func(v any) { ds = append(ds, v.(int)) })
+			// a callback may assign the Value of an element the walk has not reached yet (the
+			// ring's structure is untouched): the later callback receives the new value
+			if n := h.s.Len(); n >= 3 && nestAt < 0 && r.Chance(1, 4) {
+				var ag, as []int
+				tg, ts := h.g.Move(n-1), h.s.Move(n-1) // the last element of the walk
+				og, os := tg.Value, ts.Value
+				h.g.Do(func(v int) {
+					if len(ag) == 0 {
+						tg.Value = 424242
+					}
+					ag = append(ag, v)
+				})
+				h.s.Do(func(v any) {
+					if len(as) == 0 {
+						ts.Value = 424242
+					}
+					as = append(as, v.(int))
+				})
+				tg.Value, ts.Value = og, os
+				if !eqSlice(ag, as) {
+					fail(op+":Do-value-assigned-ahead", fmt.Sprintf("after %s a Do callback assigned the Value of the last element ahead of the walk: Do passed %v, container/ring passes %v", op, ag, as))
+					return false
+				}
+				c.Count("ring_do_value_assigned_ahead", 1)
+			}
 			if nestBad != "" {
 				fail(op+":Do-nested", fmt.Sprintf("after %s, inside the Do callback from element %d: %s", op, id, nestBad))
 				return false
